@@ -295,7 +295,9 @@ func runProgramInner(impl string, p program, faults []int, randFault bool) (res 
 				clear()
 				// no reader is running any more and the Close has failed: until it is retried the pages that still hold
 				// the secret must not be left readable
-				if impl == "protectedmemory" {
+				// (if the reader's own release failed - a second fault - the pages were left readable by that failed
+				// mprotect, which the reader was told about; nothing Close does or omits is to blame then)
+				if impl == "protectedmemory" && rerr == nil {
 					for _, reg := range mc.ReadableNonZero() {
 						add("c12-readable-after-failed-close", "pending Close failed (%v) with no reader left and the region %#x, which still holds the secret, is left %s", cerr, reg.Base, reg.Prot)
 					}
